@@ -262,6 +262,19 @@ impl C20 {
 				"cancel" => done(owner.cancel_tx(m, None, Some(slate.as_ref().unwrap().id)).map(|_| None)),
 				"post" => done(owner.post_tx(m, slate.as_ref().unwrap(), true).map(|_| None)),
 				"set_account" => done(owner.set_active_account(m, &label).map(|_| None)),
+				"pay" => done(owner.process_invoice_tx(m, slate.as_ref().unwrap(), init_args.unwrap()).map(Some)),
+				"issue" => done(
+					owner
+						.issue_invoice_tx(
+							m,
+							grin_wallet_libwallet::IssueInvoiceTxArgs {
+								dest_acct_name: None,
+								amount: init_args.map(|a| a.amount).unwrap_or(1_000_000_000),
+								target_slate_version: None,
+							},
+						)
+						.map(Some),
+				),
 				_ => TaskOutcome { ok: false, err: Some("unknown task".into()), slate: None, panicked: false },
 			}
 		}))
@@ -634,7 +647,8 @@ impl C20 {
 				a.src_acct = None;
 				a.proof_to = None;
 				a.late_lock = false;
-				tasks.push(TaskSpec { kind: "init".into(), m: None, args: Some(a), del: false, label: None });
+				let kind = if run.rng.chance(1, 4) { "issue" } else { "init" };
+				tasks.push(TaskSpec { kind: kind.into(), m: None, args: Some(a), del: false, label: None });
 				continue;
 			}
 			let d = *run.rng.pick(&deals);
@@ -658,6 +672,36 @@ impl C20 {
 				}
 			} else if deal.initiator != w && deal.kind == crate::model::DealKind::Send && !deal.replied {
 				Some(TaskSpec { kind: "receive".into(), m: Some(deal.m1), args: None, del: false, label: None })
+			} else if deal.kind == crate::model::DealKind::Invoice
+				&& deal.initiator != w
+				&& !deal.replied
+				&& deal.cancelled_by.is_empty()
+			{
+				// an invoice somebody else issued: this wallet pays it
+				let mut a = self.gen.send_args(run, w);
+				a.amount = deal.amount;
+				a.src_acct = None;
+				a.proof_to = None;
+				a.late_lock = false;
+				a.incl_fee = false;
+				run.cov.probe("invoice_step_inside_the_window");
+				Some(TaskSpec { kind: "pay".into(), m: Some(deal.m1), args: Some(a), del: false, label: None })
+			} else if deal.kind == crate::model::DealKind::Invoice
+				&& deal.initiator == w
+				&& deal.replied
+				&& !deal.finalized
+				&& !deal.cancelled_by.contains(&w)
+			{
+				// the payer's reply to this wallet's own invoice: finalize (or drop) it
+				run.cov.probe("invoice_step_inside_the_window");
+				Some(TaskSpec { kind: if run.rng.chance(1, 4) { "cancel".into() } else { "finalize".into() }, m: deal.m2, args: None, del: false, label: None })
+			} else if deal.kind == crate::model::DealKind::Invoice
+				&& deal.payer == Some(w)
+				&& deal.replied
+				&& !deal.locked
+				&& !deal.cancelled_by.contains(&w)
+			{
+				Some(TaskSpec { kind: if run.rng.chance(1, 4) { "cancel".into() } else { "lock".into() }, m: deal.m2, args: None, del: false, label: None })
 			} else if deal.payee == Some(w) && deal.mined.is_none() && !deal.cancelled_by.contains(&w) {
 				Some(TaskSpec { kind: "cancel".into(), m: Some(deal.m1), args: None, del: false, label: None })
 			} else {
